@@ -215,6 +215,26 @@ def Query.WF : Query → Bool
     (musts.map (fun q => q.WF)).all id && (shoulds.map (fun q => q.WF)).all id && (nots.map (fun q => q.WF)).all id
   | _ => true
 
+/-- what `Query.Searcher()` does with two shapes BEFORE it constructs anything else (the repairs fd50aeb
+and a584889): an inverted / empty term range (`NewTermRangeSearcher`: `bytes.Compare(min, max) >= 0`) and a
+boolean that demands matching should clauses but has none (`BooleanQuery.Searcher`:
+`len(shoulds) == 0 && minShould > 0`) become a `MatchNoneSearcher`. `compile idx q.norm` is the searcher
+tree of the current code for EVERY query; `compile idx q` alone is the tree before those repairs. -/
+def Query.norm : Query → Query
+  | .multi f m => if m.regular then .multi f m else .none
+  | .bool ms ss ns k =>
+    if ss.isEmpty && k != 0 then .none
+    else .bool (ms.map Query.norm) (ss.map Query.norm) (ns.map Query.norm) k
+  | q => q
+
+/-- the remaining side condition of the property's domain: every boolean query has at least one clause
+(`BooleanQuery.Validate` rejects the others) -/
+def Query.hasClauses : Query → Bool
+  | .bool ms ss ns _ =>
+    (!ms.isEmpty || !ss.isEmpty || !ns.isEmpty) &&
+    (ms.map (fun q => q.hasClauses)).all id && (ss.map (fun q => q.hasClauses)).all id && (ns.map (fun q => q.hasClauses)).all id
+  | _ => true
+
 /-! ## the searcher plan of a query (query.go) -/
 
 /-- live postings of (field, term) -/
